@@ -123,8 +123,17 @@ def c05_2(cx):
     cx.sites(st, 1, "store to capacity")
     for x, po, vo in st:
         cx.flow(s, vo, [r"^std::num::NonZero::<(usize|T)>::new\(\$2\)$"], [r"^const:"], "capacity := NonZeroUsize::new(capacity) (0 => None => eviction disabled)", x)
+    # changing the capacity must not forget which memos are cached: the recency set is cleared only when eviction
+    # is switched off (capacity 0); otherwise everything cached before the change would escape the bound for good
+    for c in s.calls(r"^hashlink::LinkedHashSet::<T, S>::clear$"):
+        cx.only_if(s, c, CallIs(r"^std::option::Option::<T>::is_none$", True, [r"^\$1\.capacity$"], desc="the new capacity is None (eviction disabled)"), "set_capacity forgets the recency set only when eviction is being disabled")
     n = cx.fn(LRUT + r"new$")
     cx.flow(n, n.origin_local(0), [r"capacity: std::num::NonZero::<(usize|T)>::new\(\$1\)"], [], "new: capacity := NonZeroUsize::new(cap)")
+    ins = cx.fn(LRU + r"insert$")
+    calls = [c for c in ins.calls(r"^hashlink::LinkedHashSet::<T, S>::(insert|replace|insert_if_absent)$")]
+    cx.sites(calls, 1, "recency update in Lru::insert")
+    for c in calls:
+        cx.check(ins.callee(c).endswith("::insert"), "a use moves the key to the most-recent end (LinkedHashSet::insert; `replace`/`insert_if_absent` keep the old position)", c, {"callee": ins.callee(c)}, key="move-to-back")
 
 
 @ob("C05.3", ["C05", "C04"], "eviction that touches dependency information, or evicts a non-recomputable memo, changes later results", kind="FLOW+ONLYIF")
